@@ -302,6 +302,7 @@ type histT struct {
 	capGen   map[string]int
 	capHad   map[string]bool
 	cuts     map[string]*orec
+	nsec3Origins map[string][]*orec
 	origins  map[string]*orec // (piece, mark) -> the admission a record originates from (never deleted)
 	shown    map[string]int64 // (holder, piece, mark) -> smallest TTL shown so far
 }
@@ -338,7 +339,7 @@ func histNew(f []string) vlib.Res {
 	cfg.DNS64 = config.DNS64Config{Enabled: true, Prefixes: []string{"2001:db8:64::/96"}}
 	h := &histT{ecsCap: capS, known: map[slotKey]*cache.CacheEntry{}, led: map[slotKey]*orec{}, gens: map[slotKey]int{},
 		captured: map[string]*cache.CacheEntry{}, capGen: map[string]int{}, capHad: map[string]bool{}, cuts: map[string]*orec{},
-		origins: map[string]*orec{}, shown: map[string]int64{}}
+		origins: map[string]*orec{}, shown: map[string]int64{}, nsec3Origins: map[string][]*orec{}}
 	h.up = &upstream{script: map[string]*specT{}, calls: map[string]int{}, answered: map[string]int{}}
 	reg := middleware.NewRegistry()
 	reg.Register("edns", func(c *config.Config) middleware.Handler { return edns.New(c) })
@@ -732,7 +733,15 @@ func (h *histT) originOf(r recTok) (*orec, bool) {
 		if o := h.origins[fmt.Sprintf("%s#%d", r.tok, r.mark)]; o != nil || r.mark >= 0 {
 			return o, false
 		}
-		return h.origins[r.tok+"#cur"], false // an NSEC3 record itself carries no mark
+		// an NSEC3 record itself carries no mark (the same RDATA is admitted again): it may stem from
+		// any admission of that owner — judged by the one that permits most
+		var best *orec
+		for _, o := range h.nsec3Origins[r.tok] {
+			if best == nil || o.admitV+o.life > best.admitV+best.life {
+				best = o
+			}
+		}
+		return best, false
 	}
 	if r.mark >= 0 {
 		return h.origins[fmt.Sprintf("%s#%d", r.tok, r.mark)], false
@@ -1577,7 +1586,7 @@ func (h *histT) prec(zl byte, k, itemS, leaseS string) vlib.Res {
 	no := &orec{gen: h.marks, admitV: h.V, life: lifeN, lim: "proof-" + limN, nsLife: lifeN, nsLim: "proof-" + limN, lastShown: -1, mark: mark}
 	h.origins[fmt.Sprintf("%s#%d", ztok, mark)] = so
 	h.origins[fmt.Sprintf("%s#%d", stok, mark)] = no
-	h.origins[stok+"#cur"] = no
+	h.nsec3Origins[stok] = append(h.nsec3Origins[stok], no)
 	return vlib.Res{Impl: fmt.Sprintf("t soa=%d nsec=%d", gotS, gotN), Oracle: or, Tags: "nt,lim=" + limS}
 }
 
